@@ -269,73 +269,63 @@ func extraC12(c *Ctx, r *Report) {
 
 // ---------- C13-R4: usage mapping agrees between the buffered and the streamed path ----------
 func extraC13(c *Ctx, r *Report) {
-	r.Rule("C13-R4", "both translations read token usage from the same backend keys: input tokens from usage.prompt_tokens, output tokens from usage.completion_tokens (sibling agreement between convertUsage and the stream line handler)", 4)
-	type site struct {
-		fn    string
-		field string // destination
+	r.Rule("C13-R4", "wherever the translator package reads usage.prompt_tokens it stores the value into an input-token destination (field/key named *input*), and usage.completion_tokens into an output-token destination; both the buffered and the streamed translation read both keys (sibling agreement)", 4)
+	type hit struct {
+		fn  *ssa.Function
+		pos token.Pos
+		dst string
+		src string
 	}
-	check := func(fnName string, dstIsField func(st *ssa.Store) string) {
-		fn := c.Fn(pkgAnthropic, fnName)
-		if fn == nil {
-			r.Unresolved("C13-R4", pkgAnthropic+"."+fnName)
-			return
+	var hits []hit
+	for _, f := range c.Funcs {
+		if !strings.HasSuffix(fnPkgPath(f), pkgAnthropic) || strings.Contains(fname(f), "token_count") {
+			continue
 		}
-		eachInstr(fn, func(in ssa.Instruction) {
-			st, ok := in.(*ssa.Store)
-			if !ok {
-				return
-			}
-			dst := dstIsField(st)
-			if dst == "" {
-				return
-			}
-			want := map[string]string{"input": "prompt_tokens", "output": "completion_tokens"}[dst]
-			key := fmt.Sprintf("%s:%s-tokens", fname(fn), dst)
-			if fromLookupKey(st.Val, want, 10) {
-				r.OK("C13-R4", key, in.Pos(), dst+" tokens ← usage."+want)
-			} else if _, isK := st.Val.(*ssa.Const); isK {
-				return
-			} else {
-				r.Bad("C13-R4", key, in.Pos(), dst+" tokens are not read from usage."+want+": streamed and buffered usage disagree or are swapped")
-			}
-		})
-	}
-	check("(*Translator).processStreamLine", func(st *ssa.Store) string {
-		if isField(st.Addr, pkgAnthropic, "StreamingState", "inputTokens") {
-			return "input"
-		}
-		if isField(st.Addr, pkgAnthropic, "StreamingState", "outputTokens") {
-			return "output"
-		}
-		return ""
-	})
-	// buffered: convertUsage builds AnthropicUsage{InputTokens: promptTokens, OutputTokens: completionTokens} via locals (phis)
-	fn := c.Fn(pkgAnthropic, "(*Translator).convertUsage")
-	if fn == nil {
-		r.Unresolved("C13-R4", "(*Translator).convertUsage")
-	} else {
-		eachInstr(fn, func(in ssa.Instruction) {
-			st, ok := in.(*ssa.Store)
-			if !ok {
-				return
-			}
+		eachInstr(f, func(in ssa.Instruction) {
+			var val ssa.Value
 			dst := ""
-			if isField(st.Addr, pkgAnthropic, "AnthropicUsage", "InputTokens") {
-				dst = "input"
-			} else if isField(st.Addr, pkgAnthropic, "AnthropicUsage", "OutputTokens") {
-				dst = "output"
+			switch x := in.(type) {
+			case *ssa.Store:
+				if fa, ok := x.Addr.(*ssa.FieldAddr); ok {
+					_, fld, _ := fieldOf(fa)
+					val, dst = x.Val, fld.Name()
+				}
+			case *ssa.MapUpdate:
+				if k, ok := constString(x.Key); ok {
+					val, dst = x.Value, k
+				}
 			}
-			if dst == "" {
+			if val == nil {
 				return
 			}
-			want := map[string]string{"input": "prompt_tokens", "output": "completion_tokens"}[dst]
-			key := fmt.Sprintf("%s:%s-tokens", fname(fn), dst)
-			if fromLookupKey(st.Val, want, 10) {
-				r.OK("C13-R4", key, in.Pos(), dst+" tokens ← usage."+want)
-			} else {
-				r.Bad("C13-R4", key, in.Pos(), dst+" tokens are not read from usage."+want)
+			for _, src := range []string{"prompt_tokens", "completion_tokens"} {
+				if fromLookupKey(val, src, 10) {
+					hits = append(hits, hit{f, in.Pos(), dst, src})
+				}
 			}
 		})
+	}
+	fnsBySrc := map[string]map[*ssa.Function]bool{"prompt_tokens": {}, "completion_tokens": {}}
+	for _, h := range hits {
+		fnsBySrc[h.src][topParent(h.fn)] = true
+		want := map[string][]string{"prompt_tokens": {"input", "prompt"}, "completion_tokens": {"output", "completion"}}[h.src]
+		key := fmt.Sprintf("%s:%s→%s", fname(h.fn), h.src, h.dst)
+		ok := false
+		for _, w := range want {
+			if strings.Contains(strings.ToLower(h.dst), w) {
+				ok = true
+			}
+		}
+		if ok {
+			r.OK("C13-R4", key, h.pos, "usage."+h.src+" → "+h.dst)
+		} else {
+			r.Bad("C13-R4", key, h.pos, "usage."+h.src+" is stored into "+h.dst+": input/output token counts are swapped or misrouted")
+		}
+	}
+	for src, fns := range fnsBySrc {
+		if len(fns) < 2 {
+			r.Bad("C13-R4", "usage-key-read-by-both-paths:"+src, token.NoPos, fmt.Sprintf("usage.%s is read by %d translation path(s); the buffered and the streamed translation must both read it (otherwise their usage numbers disagree)", src, len(fns)))
+		}
 	}
 	addMutants(Mutant{Prop: "C13", Name: "stream-usage-swapped", File: "internal/adapter/translator/anthropic/streaming.go", Rule: "C13-R4",
 		Old: "		if promptTokens, promptOk := usage[\"prompt_tokens\"].(float64); promptOk {\n			state.inputTokens = int(promptTokens)\n		}", New: "		if promptTokens, promptOk := usage[\"total_tokens\"].(float64); promptOk {\n			state.inputTokens = int(promptTokens)\n		}"})
